@@ -131,8 +131,8 @@ fn run(v: usize, input: &str) -> Run {
 }
 
 const CLAUSES: [(&str, &str); 9] = [
-    ("C14", "parse does not panic"),
-    ("C14", "acceptance: success iff the reference token sequence holds no error token"),
+    ("C14 C17", "parse does not panic"),
+    ("C14 C17", "acceptance: success iff the input is a sentence of the toy grammar (no error token, every `;` directly after an `a`; skipped tokens do not matter)"),
     ("C14", "tree leaves are contiguous, in order, start at 0 and end at the input length"),
     ("C14", "leaf texts equal the input slices of their byte ranges (texts concatenate to the input)"),
     ("C14", "leaf token types and ranges equal the reference tokenization (significant, skipped, comments, unmatched gaps)"),
@@ -209,7 +209,7 @@ fn main() {
         }
         let mut bad = false;
         for (ci, (p, c)) in CLAUSES.iter().enumerate() {
-            if !(*p == prop || prop == "all") { continue; }
+            if !(prop == "all" || p.split(' ').any(|x| x == prop)) { continue; }
             match &first[ci] {
                 Some(w) => { println!("BORDER-VIOLATION\t{}\t{}", c, w); bad = true; }
                 None => println!("CHECKED\t{}\t{}", c, cases),
